@@ -59,6 +59,17 @@ CHECKS["C02"] = dict(
          "multipass interpreter are observed under sanitizers, not proved.",
     design="4/C02", technique="Coq proof over sizing plan and emission guards regenerated from the C source + sanitizer-instrumented streams")
 
+CHECKS["C05"] = dict(
+    text="Machine-checked refinement proof (Coq, ~1000 lines): for ALL entry lists, inputs, modes and capacities the implementation-shaped "
+         "selection (hash bucket of the first two characters walked in chain order with collision check, then the character's chain) "
+         "over the structure built with the insertion conditions and hash functions REGENERATED from the C source equals the reference "
+         "over the plain entry list; the whole main-pass loop (cells, consumed input, per-cell positions, rule trace, capacity back-off) "
+         "is equal; the reference picks a qualifying rule that is preferred (longest, then not `always', then first defined; "
+         "single-character rules before the definition) to every other qualifying rule; the loop never runs out of fuel and lengths stay "
+         "in range. Tied to the code by running _lou_translate (rule trace, raw position map, dotsIO cells) on grammar-generated tables "
+         "against both extracted engines.",
+    design="4/C05", technique="Coq refinement proof (hash-chain selection = reference over the entry list) over comparators regenerated from the C source + differential correspondence with _lou_translate")
+
 PENDING = {}
 
 
